@@ -45,13 +45,13 @@ package topic
 //
 // The callback type of match/search: called only with a non-empty value list;
 // whatever it does, it leaves the trie's structure intact.
+//@ ghost anystop bool
 //@ functype "func([]interface{}) bool" (values []interface{}) (cont bool)
 //@   requires [nonempty] len(values) > 0
 //@   requires [wf] wf()
 //@   ensures [wf] old(wf()) ==> wf()
-//@   ensures [config] forall tr *Tree {tr.root} :: tr.root == old(tr.root) && tr.separator == old(tr.separator) && tr.wildcardOne == old(tr.wildcardOne) && tr.wildcardSome == old(tr.wildcardSome)
-//@   ensures [children-kept] forall n *node {n.children} :: old(isnode[n]) ==> n.children == old(n.children)
-//@   modifies heap
+//@   ensures [stop] anystop <==> (old(anystop) || !cont)
+//@   modifies heap-except(any(Tree.root), any(Tree.separator), any(Tree.wildcardOne), any(Tree.wildcardSome), any(node.children), any(node.values), anymap(map[string]*node)), anystop
 //
 // ---------------------------------------------------------------- value lists of one node
 //
@@ -105,17 +105,13 @@ package topic
 //@   requires [locked] held[t.mutex] == 2 && std(t)
 //@   requires [node] isnode[node] && wf()
 //@   ensures [wf] wf() && forall m *node {isnode[m]} :: old(isnode[m]) ==> isnode[m]
-//@   ensures [config] forall tr *Tree {tr.root} :: tr.root == old(tr.root) && tr.separator == old(tr.separator) && tr.wildcardOne == old(tr.wildcardOne) && tr.wildcardSome == old(tr.wildcardSome)
-//@   ensures [children-kept] forall n *node {n.children} :: old(isnode[n]) ==> n.children == old(n.children)
-//@   modifies any(node.values), any(node.children), anymap(map[string]*node), elemsof(iface), isnode
-//@   loop 1 invariant [range] 0 <= rangeindex + 1 && rangeindex + 1 <= len(node.values) && wf() && (forall m *node {isnode[m]} :: old(isnode[m]) ==> isnode[m]) && (forall tr *Tree {tr.root} :: tr.root == old(tr.root) && tr.separator == old(tr.separator) && tr.wildcardOne == old(tr.wildcardOne) && tr.wildcardSome == old(tr.wildcardSome)) && (forall n *node {n.children} :: old(isnode[n]) ==> n.children == old(n.children))
+//@   modifies any(node.values), anymap(map[string]*node), elemsof(iface), isnode
+//@   loop 1 invariant [range] 0 <= rangeindex + 1 && rangeindex + 1 <= len(node.values) && wf() && (forall m *node {isnode[m]} :: old(isnode[m]) ==> isnode[m])
 //@ func (t *Tree) set(value interface{}, topic string, node *node)
 //@   requires [locked] held[t.mutex] == 2 && std(t)
 //@   requires [node] isnode[node] && wf()
 //@   ensures [wf] wf() && forall m *node {isnode[m]} :: old(isnode[m]) ==> isnode[m]
-//@   ensures [config] forall tr *Tree {tr.root} :: tr.root == old(tr.root) && tr.separator == old(tr.separator) && tr.wildcardOne == old(tr.wildcardOne) && tr.wildcardSome == old(tr.wildcardSome)
-//@   ensures [children-kept] forall n *node {n.children} :: old(isnode[n]) ==> n.children == old(n.children)
-//@   modifies any(node.values), any(node.children), anymap(map[string]*node), elemsof(iface), isnode
+//@   modifies any(node.values), anymap(map[string]*node), elemsof(iface), isnode
 //@ func (t *Tree) get(topic string, node *node) (r []interface{})
 //@   requires [locked] held[t.mutex] >= 1 && std(t)
 //@   requires [node] isnode[node] && wf()
@@ -125,17 +121,13 @@ package topic
 //@   requires [locked] held[t.mutex] == 2 && std(t)
 //@   requires [node] isnode[node] && wf()
 //@   ensures [wf] wf() && forall m *node {isnode[m]} :: old(isnode[m]) ==> isnode[m]
-//@   ensures [config] forall tr *Tree {tr.root} :: tr.root == old(tr.root) && tr.separator == old(tr.separator) && tr.wildcardOne == old(tr.wildcardOne) && tr.wildcardSome == old(tr.wildcardSome)
-//@   ensures [children-kept] forall n *node {n.children} :: old(isnode[n]) ==> n.children == old(n.children)
-//@   modifies any(node.values), any(node.children), anymap(map[string]*node), elemsof(iface)
+//@   modifies any(node.values), anymap(map[string]*node), elemsof(iface)
 //@ func (t *Tree) clear(value interface{}, node *node) (empty bool)
 //@   requires [locked] held[t.mutex] == 2
 //@   requires [node] isnode[node] && wf()
 //@   ensures [wf] wf()
-//@   ensures [config] forall tr *Tree {tr.root} :: tr.root == old(tr.root) && tr.separator == old(tr.separator) && tr.wildcardOne == old(tr.wildcardOne) && tr.wildcardSome == old(tr.wildcardSome)
-//@   ensures [children-kept] forall n *node {n.children} :: old(isnode[n]) ==> n.children == old(n.children)
-//@   modifies any(node.values), any(node.children), anymap(map[string]*node), elemsof(iface)
-//@   loop 1 invariant [wf] wf() && isnode[node] && (forall tr *Tree {tr.root} :: tr.root == old(tr.root) && tr.separator == old(tr.separator) && tr.wildcardOne == old(tr.wildcardOne) && tr.wildcardSome == old(tr.wildcardSome)) && (forall n *node {n.children} :: old(isnode[n]) ==> n.children == old(n.children))
+//@   modifies any(node.values), anymap(map[string]*node), elemsof(iface)
+//@   loop 1 invariant [wf] wf() && isnode[node]
 //@ func (t *Tree) count(node *node) (n int)
 //@   requires [locked] held[t.mutex] >= 1
 //@   requires [node] isnode[node] && wf()
@@ -154,20 +146,16 @@ package topic
 //@   requires [locked] held[t.mutex] >= 1 && std(t)
 //@   requires [node] isnode[node] && wf() && fn != nil
 //@   ensures [wf] wf()
-//@   ensures [config] forall tr *Tree {tr.root} :: tr.root == old(tr.root) && tr.separator == old(tr.separator) && tr.wildcardOne == old(tr.wildcardOne) && tr.wildcardSome == old(tr.wildcardSome)
-//@   ensures [children-kept] forall n *node {n.children} :: old(isnode[n]) ==> n.children == old(n.children)
 //@   calls fn
-//@   modifies nothing
+//@   modifies anystop
 //@ func (t *Tree) search(topic string, node *node, fn func([]interface{}) bool)
 //@   requires [locked] held[t.mutex] >= 1 && std(t)
 //@   requires [node] isnode[node] && wf() && fn != nil
 //@   ensures [wf] wf()
-//@   ensures [config] forall tr *Tree {tr.root} :: tr.root == old(tr.root) && tr.separator == old(tr.separator) && tr.wildcardOne == old(tr.wildcardOne) && tr.wildcardSome == old(tr.wildcardSome)
-//@   ensures [children-kept] forall n *node {n.children} :: old(isnode[n]) ==> n.children == old(n.children)
 //@   calls fn
-//@   modifies nothing
-//@   loop 1 invariant [wf] wf() && isnode[node] && (forall tr *Tree {tr.root} :: tr.root == old(tr.root) && tr.separator == old(tr.separator) && tr.wildcardOne == old(tr.wildcardOne) && tr.wildcardSome == old(tr.wildcardSome)) && (forall n *node {n.children} :: old(isnode[n]) ==> n.children == old(n.children))
-//@   loop 2 invariant [wf] wf() && isnode[node] && (forall tr *Tree {tr.root} :: tr.root == old(tr.root) && tr.separator == old(tr.separator) && tr.wildcardOne == old(tr.wildcardOne) && tr.wildcardSome == old(tr.wildcardSome)) && (forall n *node {n.children} :: old(isnode[n]) ==> n.children == old(n.children))
+//@   modifies anystop
+//@   loop 1 invariant [wf] wf() && isnode[node]
+//@   loop 2 invariant [wf] wf() && isnode[node]
 
 // ---------------------------------------------------------------- public methods: one critical section each
 //
@@ -186,7 +174,7 @@ package topic
 //@   ensures [tree] tree_ok(t)
 //@   ensures [footprint-grows] forall m *node {isnode[m]} :: old(isnode[m]) ==> isnode[m]
 //@   ensures [released] held == old(held)
-//@   modifies any(node.values), any(node.children), anymap(map[string]*node), elemsof(iface), isnode, held
+//@   modifies any(node.values), anymap(map[string]*node), elemsof(iface), isnode, held
 //@ func (t *Tree) Set(topic string, value interface{})
 //@   requires [unlocked] held[t.mutex] == 0
 //@   requires [tree] tree_ok(t) && std(t)
@@ -196,7 +184,7 @@ package topic
 //@   ensures [released] held == old(held)
 //@   ensures [logged] tlast == old(tlast)[t := old(tlast[t])[topic := payload(value)]]
 //@   ghostset tlast[t][topic] := payload(value)
-//@   modifies any(node.values), any(node.children), anymap(map[string]*node), elemsof(iface), isnode, held, tlast
+//@   modifies any(node.values), anymap(map[string]*node), elemsof(iface), isnode, held, tlast
 //@ func (t *Tree) Get(topic string) (r []interface{})
 //@   requires [unlocked] held[t.mutex] == 0
 //@   requires [tree] tree_ok(t) && std(t)
@@ -209,7 +197,7 @@ package topic
 //@   requires [tree] tree_ok(t) && std(t)
 //@   ensures [tree] tree_ok(t)
 //@   ensures [released] held == old(held)
-//@   modifies any(node.values), any(node.children), anymap(map[string]*node), elemsof(iface), held
+//@   modifies any(node.values), anymap(map[string]*node), elemsof(iface), held
 //@ func (t *Tree) Empty(topic string)
 //@   requires [unlocked] held[t.mutex] == 0
 //@   requires [tree] tree_ok(t) && std(t)
@@ -217,13 +205,13 @@ package topic
 //@   ensures [released] held == old(held)
 //@   ensures [logged] nemptied == old(nemptied)[t := old(nemptied[t])[topic := old(nemptied[t][topic]) + 1]]
 //@   ghostset nemptied[t][topic] := nemptied[t][topic] + 1
-//@   modifies any(node.values), any(node.children), anymap(map[string]*node), elemsof(iface), held, nemptied
+//@   modifies any(node.values), anymap(map[string]*node), elemsof(iface), held, nemptied
 //@ func (t *Tree) Clear(value interface{})
 //@   requires [unlocked] held[t.mutex] == 0
 //@   requires [tree] tree_ok(t)
 //@   ensures [tree] tree_ok(t)
 //@   ensures [released] held == old(held)
-//@   modifies any(node.values), any(node.children), anymap(map[string]*node), elemsof(iface), held
+//@   modifies any(node.values), anymap(map[string]*node), elemsof(iface), held
 //@ func (t *Tree) Reset()
 //@   requires [unlocked] held[t.mutex] == 0
 //@   requires [tree] wf()
@@ -247,16 +235,16 @@ package topic
 //@   ensures [tree] tree_ok(t)
 //@   ensures [released] held == old(held)
 //@   assumes [stored-values] forall i int {r[i]} :: 0 <= i && i < len(r) ==> r[i] != nil && (tvtype[t] == 0 || (dyn(r[i]) == tvtype[t] && payload(r[i]) != 0))
-//@   modifies held
+//@   modifies held, anystop
 //@ func (t *Tree) Match$1(values []interface{}) (cont bool)
 //@   requires [nonempty] len(values) > 0
 //@   requires [wf] wf()
 //@   preserves [own] snapshot(*list) && (arr(*list) == 0 || arr(*list) > addr(list))
 //@   ensures [wf] old(wf()) ==> wf()
-//@   ensures [config] forall tr *Tree {tr.root} :: tr.root == old(tr.root) && tr.separator == old(tr.separator) && tr.wildcardOne == old(tr.wildcardOne) && tr.wildcardSome == old(tr.wildcardSome)
-//@   ensures [children-kept] forall n *node {n.children} :: old(isnode[n]) ==> n.children == old(n.children)
 //@   ensures [continue] cont
-//@   modifies *list, elems((*list)[0:cap(*list)])
+//@   ensures [stopped] anystop <==> (old(anystop) || !cont)
+//@   ghostset anystop := anystop || !cont
+//@   modifies *list, elems((*list)[0:cap(*list)]), anystop
 //@ func (t *Tree) Search(topic string) (r []interface{})
 //@   requires [unlocked] held[t.mutex] == 0
 //@   requires [tree] tree_ok(t) && std(t)
@@ -265,16 +253,16 @@ package topic
 //@   ensures [tree] tree_ok(t)
 //@   ensures [released] held == old(held)
 //@   assumes [stored-values] forall i int {r[i]} :: 0 <= i && i < len(r) ==> r[i] != nil && (tvtype[t] == 0 || (dyn(r[i]) == tvtype[t] && payload(r[i]) != 0))
-//@   modifies held
+//@   modifies held, anystop
 //@ func (t *Tree) Search$1(values []interface{}) (cont bool)
 //@   requires [nonempty] len(values) > 0
 //@   requires [wf] wf()
 //@   preserves [own] snapshot(*list) && (arr(*list) == 0 || arr(*list) > addr(list))
 //@   ensures [wf] old(wf()) ==> wf()
-//@   ensures [config] forall tr *Tree {tr.root} :: tr.root == old(tr.root) && tr.separator == old(tr.separator) && tr.wildcardOne == old(tr.wildcardOne) && tr.wildcardSome == old(tr.wildcardSome)
-//@   ensures [children-kept] forall n *node {n.children} :: old(isnode[n]) ==> n.children == old(n.children)
 //@   ensures [continue] cont
-//@   modifies *list, elems((*list)[0:cap(*list)])
+//@   ensures [stopped] anystop <==> (old(anystop) || !cont)
+//@   ghostset anystop := anystop || !cont
+//@   modifies *list, elems((*list)[0:cap(*list)]), anystop
 //@ func (t *Tree) MatchFirst(topic string) (v interface{})
 //@   requires [unlocked] held[t.mutex] == 0
 //@   requires [tree] tree_ok(t) && std(t)
@@ -283,15 +271,15 @@ package topic
 //@   assumes [stored-value] v != nil ==> tvtype[t] == 0 || (dyn(v) == tvtype[t] && payload(v) != 0)
 //@   ensures [logged] lastfirst == payload(v)
 //@   ghostset lastfirst := payload(v)
-//@   modifies held, lastfirst
+//@   modifies held, lastfirst, anystop
 //@ func (t *Tree) MatchFirst$1(values []interface{}) (cont bool)
 //@   requires [nonempty] len(values) > 0
 //@   requires [wf] wf()
 //@   ensures [wf] old(wf()) ==> wf()
-//@   ensures [config] forall tr *Tree {tr.root} :: tr.root == old(tr.root) && tr.separator == old(tr.separator) && tr.wildcardOne == old(tr.wildcardOne) && tr.wildcardSome == old(tr.wildcardSome)
-//@   ensures [children-kept] forall n *node {n.children} :: old(isnode[n]) ==> n.children == old(n.children)
 //@   ensures [stop] !cont
-//@   modifies *value
+//@   ensures [stopped] anystop <==> (old(anystop) || !cont)
+//@   ghostset anystop := anystop || !cont
+//@   modifies *value, anystop
 //@ func (t *Tree) SearchFirst(topic string) (v interface{})
 //@   requires [unlocked] held[t.mutex] == 0
 //@   requires [tree] tree_ok(t) && std(t)
@@ -300,15 +288,15 @@ package topic
 //@   assumes [stored-value] v != nil ==> tvtype[t] == 0 || (dyn(v) == tvtype[t] && payload(v) != 0)
 //@   ensures [logged] lastfirst == payload(v)
 //@   ghostset lastfirst := payload(v)
-//@   modifies held, lastfirst
+//@   modifies held, lastfirst, anystop
 //@ func (t *Tree) SearchFirst$1(values []interface{}) (cont bool)
 //@   requires [nonempty] len(values) > 0
 //@   requires [wf] wf()
 //@   ensures [wf] old(wf()) ==> wf()
-//@   ensures [config] forall tr *Tree {tr.root} :: tr.root == old(tr.root) && tr.separator == old(tr.separator) && tr.wildcardOne == old(tr.wildcardOne) && tr.wildcardSome == old(tr.wildcardSome)
-//@   ensures [children-kept] forall n *node {n.children} :: old(isnode[n]) ==> n.children == old(n.children)
 //@   ensures [stop] !cont
-//@   modifies *value
+//@   ensures [stopped] anystop <==> (old(anystop) || !cont)
+//@   ghostset anystop := anystop || !cont
+//@   modifies *value, anystop
 //@ func (t *Tree) All() (r []interface{})
 //@   requires [unlocked] held[t.mutex] == 0
 //@   requires [tree] tree_ok(t)
